@@ -9,12 +9,14 @@ Notation "'do' x <- o ; k" := (opt_bind o (fun x => k)) (at level 200, x name, o
 Definition ret (o : option sx) : sx := match o with Some s => s | None => sx_err 2 end.
 
 (* common tail: (A Ccoded Cspec) + lambda, matrix choice, targets, implementation surpluses, tolerance
-   -> (A Ccoded Cspec residual_ok_with_coded_C residual_ok_with_spec_C) *)
+   -> (A Ccoded Cspec residual_ok_with_coded_C residual_ok_with_spec_C psd_check_of_Cspec (2 = not evaluated: more than 30 hats)) *)
 Definition finish (A Cc Cs : list (list Qc)) (lam : Qc) (use_C : bool) (y alpha : list Qc) (tol : Qc) : sx :=
   let r := right_vector A y in
+  let fl := residual_floor A y in
   Lv [ of_LLQc A; of_LLQc Cc; of_LLQc Cs;
-       sx_bool (residual_ok (left_matrix A lam use_C Cc) r alpha tol);
-       sx_bool (residual_ok (left_matrix A lam use_C Cs) r alpha tol) ].
+       sx_bool (residual_ok_floor (left_matrix A lam use_C Cc) r alpha tol fl);
+       sx_bool (residual_ok_floor (left_matrix A lam use_C Cs) r alpha tol fl);
+       (if (length Cs <=? 30)%nat then sx_bool (psd_check Cs) else Zv 2) ].
 
 Definition entry_C20 (sub : Z) (a : sx) : sx :=
   match sub, a with
@@ -34,5 +36,10 @@ Definition entry_C20 (sub : Z) (a : sx) : sx :=
   (* last step of Opticom: (raw coefficients) -> (normalised sum) *)
   | 4, Lv [cs] => ret (do cs <- get_LQc cs;
       let n := normalise_coefficients cs in Some (Lv [of_LQc n; of_Qc (sumQ n)]))
+  (* design matrix only (any number of sample rows; used for large training sets / large grids and row samples) *)
+  | 5, Lv [lv; data] => ret (do lv <- get_LZ lv; do data <- get_LLQc data; Some (of_LLQc (design_uniform lv data)))
+  | 6, Lv [st; data] => ret (do st <- get_LLQc st; do data <- get_LLQc data; Some (of_LLQc (design_nonuniform st data)))
+  (* verified positive-semi-definiteness checker on a rational matrix *)
+  | 7, Lv [g] => ret (do g <- get_LLQc g; Some (sx_bool (psd_check g)))
   | _, _ => sx_err 0
   end.
